@@ -81,6 +81,12 @@ func propC05(r *Run) {
 		sched := simrt.NewSched()
 		simrt.S = sched
 		defer func() { simrt.S = nil }()
+		if r.Choose("net-yields", 4) == 0 {
+			// every read and write of a connection handler is a scheduling point: another handler
+			// may run between the moment a reply has been built and the moment it is written
+			nw.Gate = func() { simrt.Yield("net") }
+			r.Count("probe:runs-with-network-operation-yields")
+		}
 		srv, err := NewServer("/run/whawty/auth.sock", cb)
 		if err != nil {
 			r.Fail("harness/listen", "%v", err)
@@ -106,6 +112,15 @@ func propC05(r *Run) {
 				p.desc = fmt.Sprintf("slow peer: %d of %d request bytes, then silence", len(p.stream), len(full))
 			case 0: // a well-formed request with distinctive credentials
 				f := [4]string{fmt.Sprintf("user%d", i), fmt.Sprintf("pass%d", i), "svc", ""}
+				if i > 0 && r.Choose("same-bytes-other-boundaries", 4) == 0 {
+					// the same bytes as the previous connection's request, cut into fields differently
+					// ("al"+"icecream" / "alice"+"cream"): a different request, its own verdict
+					if pf, _, perr := RefDecodeRequest(plans[i-1].stream); perr == nil && len(pf[1]) > 1 {
+						k := 1 + r.Choose("boundary-shift", len(pf[1])-1)
+						f = [4]string{pf[0] + pf[1][:k], pf[1][k:], pf[2], pf[3]}
+						r.Count("probe:requests-with-shifted-field-boundaries")
+					}
+				}
 				if r.Choose("limit-fields", 3) == 0 {
 					f[0] = seededBytes(uint64(i+1), 256)
 					f[1] = seededBytes(uint64(i+77), 256)
@@ -406,7 +421,7 @@ func propC05(r *Run) {
 		}
 		time.Sleep(2 * time.Minute) // slow callbacks finish
 		synctest.Wait()
-		for guard := 0; guard < 200; guard++ {
+		for guard := 0; guard < 100000; guard++ {
 			rs := sched.Runnable()
 			if len(rs) == 0 {
 				break
